@@ -1059,3 +1059,85 @@ def d5_map_sum(f, ty='usize'):
     f.text = t[:k] + new + t[pc + 1 + tail.end():]
     f.log.rule('D5', f, 'iter().map(closure).sum() -> summing loop')
     return f
+
+
+def d15_hashmap_retain(f, nth=0, keys_shim='shim_keys'):
+    """D15: `M.retain(|_, V| BODY);` on a HashMap with a closure that does not touch M  ->
+         let verif_rkN = shim_keys(&M);
+         for verif_rk in verif_rkN.iter() { let verif_keep = { let V = M.get_mut(verif_rk).unwrap(); BODY }; if !verif_keep { M.remove(verif_rk); } }
+    (HashMap::retain visits every entry exactly once in an unspecified order and removes those for which the closure returns false;
+    BODY verbatim).  Applied to the first remaining occurrence."""
+    t = f.text
+    mask = code_mask(t)
+    ms = [x for x in re.finditer(r'\.retain\(\|_, (\w+)\|\s*', t) if mask[x.start()]]
+    if not ms:
+        f._lost('D15 M.retain(|_, v| ..)')
+    m = ms[0]
+    # receiver: scan backwards over identifiers, dots and whitespace
+    k = m.start()
+    while k > 0 and (t[k - 1].isalnum() or t[k - 1] in '_.' or t[k - 1].isspace()):
+        k -= 1
+    raw = t[k:m.start()]
+    k += len(raw) - len(raw.lstrip())
+    recv = re.sub(r'\s+', '', t[k:m.start()])
+    if not recv:
+        f._lost('D15: receiver not understood')
+    po = t.index('(', m.start())
+    pc = _match_paren(t, mask, po)
+    body = t[m.end():pc].strip()
+    if re.search(r'(?<![\w.])' + re.escape(recv) + r'\b', body):
+        f._lost('D15: closure body touches the map')
+    semi = re.match(r'\s*;', t[pc + 1:])
+    if not semi:
+        f._lost('D15: retain not in statement position')
+    var = m.group(1)
+    keys_arg = ('&*' + recv) if re.match(r'^\w+$', recv) else ('&' + recv)      # a plain identifier is a `&mut HashMap` binding here
+    ind = re.search(r'[ \t]*$', t[:k]).group(0)
+    n = len(re.findall(r'let verif_rk_all\d+', f.text))
+    new = ('let verif_rk_all%d = %s(%s);\n%sfor verif_rk in verif_rk_all%d.iter() {\n%s    let verif_keep = {\n%s        let %s = %s.get_mut(verif_rk).unwrap();\n%s        %s\n%s    };\n%s    if !verif_keep {\n%s        %s.remove(verif_rk);\n%s    }\n%s}'
+           % (n, keys_shim, keys_arg, ind, n, ind, ind, var, recv, ind, body, ind, ind, ind, recv, ind, ind))
+    f.text = t[:k] + new + t[pc + 1 + semi.end():]
+    f.log.rule('D15', f, 'HashMap::retain(|_, v| BODY) on %s -> key loop with get_mut / remove' % recv)
+    return f
+
+
+def d16_filter_filter_map_collect(f, elem_ty):
+    """D16: `M.iter().filter(|(_, V)| C).filter_map(|(K, _)| {BLOCK}).collect()` as the tail expression  ->
+         let mut acc = Vec::new(); let (es, ghost ks) = shim_ref_entries(&M);
+         for (K, V) in es.into_iter() { if C { if let Some(x) = {BLOCK} { acc.push(x); } } }  acc
+    (C and BLOCK verbatim; every entry exactly once, unspecified order)."""
+    t = f.text
+    mask = code_mask(t)
+    m = None
+    for x in re.finditer(r'\.filter\(\|\(_, (\w+)\)\|\s*', t):
+        if mask[x.start()]:
+            m = x
+            break
+    if m is None:
+        f._lost('D16 .filter(|(_, v)| ..)')
+    po = t.index('(', m.start())
+    pc = _match_paren(t, mask, po)
+    cond = t[m.end():pc].strip()
+    m2 = re.match(r'\s*\.filter_map\(\|\((\w+), _\)\|\s*\{', t[pc + 1:])
+    if not m2:
+        f._lost('D16: .filter_map(|(k, _)| {..}) expected')
+    bo = pc + 1 + m2.end() - 1
+    bc = match_brace(t, mask, bo)
+    tail = re.match(r'\s*\)\s*\.collect\(\)', t[bc + 1:])
+    if not tail:
+        f._lost('D16: .collect() expected')
+    block = t[bo:bc + 1]
+    # receiver chain before .iter()
+    k = m.start()
+    pre = t[:k]
+    r = re.search(r'([\w.\s]+?)\s*\.iter\(\)\s*$', pre)
+    if not r:
+        f._lost('D16: receiver not understood')
+    recv = re.sub(r'\s+', '', r.group(1))
+    start = r.start(1) + (len(r.group(1)) - len(r.group(1).lstrip()))
+    ind = re.search(r'[ \t]*$', t[:start]).group(0)
+    new = ('{\n%s    let mut verif_acc: Vec<%s> = Vec::new();\n%s    let (verif_es, Ghost(verif_eks)) = shim_ref_entries(&%s);\n%s    for (%s, %s) in verif_es.into_iter() {\n%s        if %s {\n%s            if let Some(verif_x) = %s {\n%s                verif_acc.push(verif_x);\n%s            }\n%s        }\n%s    }\n%s    verif_acc\n%s}'
+           % (ind, elem_ty, ind, recv, ind, m2.group(1), m.group(1), ind, cond, ind, block, ind, ind, ind, ind, ind, ind))
+    f.text = t[:start] + new + t[bc + 1 + tail.end():]
+    f.log.rule('D16', f, 'iter().filter(..).filter_map(..).collect() -> entry loop')
+    return f
